@@ -58,7 +58,7 @@ def deviations(n, alts, bound):
 ENV = [(d, l) for d in DUTIES for l in LOADS]      # index 0 = (1, 0.3): the default answer
 
 
-def check_case(acc, chain_l, locking, env_seq, split=None, units=None, init=None):
+def check_case(acc, chain_l, locking, env_seq, split=None, units=None, init=None, dt2=1.0):
     """env_seq: list of indices into ENV, one per instant."""
     chain_l = [tuple(x) for x in chain_l]
     spec = menu.assign(chain_l, motor=menu.MOTOR_CUR, locking=locking,
@@ -79,10 +79,12 @@ def check_case(acc, chain_l, locking, env_seq, split=None, units=None, init=None
     spec['load'] = ['script', [ENV[i][1] * stall for i in env_seq]]
     n = len(env_seq)
     case = {'kind': 'case', 'chain': chain_l, 'locking': locking, 'env': list(env_seq), 'split': split,
-            'units': units}
+            'units': units, 'dt2': dt2}
     if split:
+        # the continuation may use another (physical) time step
+        dtb = [dt[0] * dt2, dt[1]]
         ops = [('run', dt, [dt[0] * (split - 1), dt[1]], duty, None),
-               ('run', dt, [dt[0] * (n - split), dt[1]], duty, None)]
+               ('run', dtb, [dtb[0] * (n - split), dtb[1]], duty, None)]
     else:
         ops = [('run', dt, [dt[0] * (n - 1), dt[1]], duty, None)]
     m, info = sim.run_schedule(spec, ops)
@@ -101,7 +103,7 @@ def check_case(acc, chain_l, locking, env_seq, split=None, units=None, init=None
     def emit(sfx, clause, k, detail):
         dd = dict(detail)
         dd.update(instant=k, chain=name)
-        acc.violation(f'C03/{sfx}' + (f'/unit-{"+".join(sorted(units))}' if units else ''), clause, case, dd)
+        acc.violation(f'C03/{sfx}' + (f'/unit-{"+".join(sorted(units))}' if units else '') + ('/continued-other-dt' if split and dt2 != 1.0 else ''), clause, case, dd)
 
     acc.transitions += traj.motion(obs, chain, emit, info['dts'], info['starts'])
     last, mot = obs['el'][-1], obs['el'][0]
@@ -147,7 +149,8 @@ def run_shard(shard, tier):
             mixed = (0, 5, 0, 14, 2, 0, 9, 0)
             for split in range(3, HORIZON - 1):
                 if p == 0:
-                    check_case(acc, chain_l, locking, mixed, split=split)
+                    for f in (1.0, 0.5, 2.0, 0.25):
+                        check_case(acc, chain_l, locking, mixed, split=split, dt2=f)
         else:
             mixed = (0, 5, 0, 14, 2, 0, 9, 0)
             for u in si.UNITS['InertiaMoment']:
@@ -168,6 +171,6 @@ def run_shard(shard, tier):
 def replay(case):
     acc = Acc()
     if case.get('kind') == 'case':
-        check_case(acc, case['chain'], case['locking'], tuple(case['env']), case.get('split'), case.get('units'))
+        check_case(acc, case['chain'], case['locking'], tuple(case['env']), case.get('split'), case.get('units'), dt2=case.get('dt2', 1.0))
         return acc.violations
     return run_shard(case['shard'], 'quick').violations
